@@ -40,7 +40,7 @@ func FindLoops(fn *ssa.Function) []*Loop {
 		l := &Loop{Header: b, Cond: cond, BodyFirst: b.Succs[0], Exit: b.Succs[1]}
 		// shape 1 (range): idx = phi + 1, phi = [-1, idx]
 		if add, ok := cond.X.(*ssa.BinOp); ok && add.Op == token.ADD && an.IsConstInt(add.Y, 1) {
-			if phi, ok := add.X.(*ssa.Phi); ok && phi.Block() == b && len(phi.Edges) == 2 {
+			if phi, ok := add.X.(*ssa.Phi); ok && phi.Block() == b && len(phi.Edges) >= 2 {
 				init, back := phiInitBack(phi, add)
 				if back && init != nil && an.IsConstInt(init, -1) {
 					l.Idx, l.Phi, l.FullRange = add, phi, true
@@ -49,17 +49,21 @@ func FindLoops(fn *ssa.Function) []*Loop {
 		}
 		// shape 2 (3-clause): idx = phi [init, idx+1]
 		if l.Idx == nil {
-			if phi, ok := cond.X.(*ssa.Phi); ok && phi.Block() == b && len(phi.Edges) == 2 {
+			if phi, ok := cond.X.(*ssa.Phi); ok && phi.Block() == b && len(phi.Edges) >= 2 {
 				var init ssa.Value
 				okBack := false
+				ninit := 0
 				for _, e := range phi.Edges {
 					if add, ok := e.(*ssa.BinOp); ok && add.Op == token.ADD && add.X == ssa.Value(phi) && an.IsConstInt(add.Y, 1) {
 						okBack = true
 					} else {
+						if init != nil && init != e {
+							ninit++
+						}
 						init = e
 					}
 				}
-				if okBack && init != nil {
+				if okBack && init != nil && ninit == 0 {
 					l.Idx, l.Phi = phi, phi
 					l.FullRange = an.IsConstInt(init, 0)
 				}
@@ -111,6 +115,9 @@ func phiInitBack(phi *ssa.Phi, back ssa.Value) (init ssa.Value, hasBack bool) {
 		if e == back {
 			hasBack = true
 		} else {
+			if init != nil && init != e {
+				return nil, false // more than one entry value
+			}
 			init = e
 		}
 	}
